@@ -11,10 +11,11 @@
 //! upper in {<=0, <=1, <=2, unbounded} x required subset of {#1,#2} x allowed in {Any} + all allow-lists subset of
 //! {#1,#2,#3} (576). Balances: fungible {0, 1 atto, 1, 1.5, 2, 3}; non-fungible: all 8 subsets of {#1,#2,#3}. A
 //! balance is produced by withdrawing exactly that from a funded account (into the worktop, as the return of the
-//! "next call", or - via TAKE_ALL_FROM_WORKTOP - into a bucket). "Only" vs "include": every multi-resource form is
-//! also run with 1 unit of an unspecified fungible and with one unit of an unspecified non-fungible resource present.
-//! Thorough additionally asserts two resources at once (a fungible and a non-fungible constraint in one instruction)
-//! over reduced alphabets.
+//! "next call", or - via TAKE_ALL_FROM_WORKTOP - into a bucket). "Only" vs "include": the multi-resource forms are
+//! also run with 1 unit of an unspecified fungible and with one unit of an unspecified non-fungible resource present
+//! (quick: for the simple, the empty and the purely numeric general constraints; thorough: for every constraint).
+//! Two resources asserted at once (a fungible and a non-fungible constraint in one instruction) over reduced
+//! alphabets: quick a 1/16 stride of the product, thorough all of it.
 //!
 //! In scope = the manifest is accepted by the real `StaticManifestInterpreter` (`ValidationRuleset::all()`), which is
 //! how "declared valid for the resource kind" reaches a transaction. Oracle: the transaction commits successfully
@@ -377,8 +378,17 @@ enum Case {
     Pair(Pair),
 }
 
-fn single_cases() -> Vec<Case> {
+/// Quick: the unspecified-resource options are combined with the simple constraints, the "no constraints" forms and the
+/// purely numeric general constraints (no required ids, no allow-list); every other general constraint is run without
+/// an unspecified resource. Thorough: every constraint with every option.
+fn single_cases(thorough: bool) -> Vec<Case> {
     let a = main_alphabet();
+    let extras_for = |c: &Option<RC>| -> &'static [Extra] {
+        match c {
+            Some(RC::General { req, allow, .. }) if !thorough && (*req != 0 || allow.is_some()) => &EXTRAS[..1],
+            _ => &EXTRAS[..],
+        }
+    };
     let cs = constraints(&a);
     let mut v = vec![];
     for nf in [false, true] {
@@ -411,7 +421,7 @@ fn single_cases() -> Vec<Case> {
                         v.push(Case::Single(Single { kind: Kind::V2, form, c, bal: *bal, extra: Extra::None, call_returns_extra: false }));
                         continue;
                     }
-                    for extra in EXTRAS {
+                    for extra in extras_for(&c).iter().copied() {
                         v.push(Case::Single(Single { kind: Kind::V2, form, c, bal: *bal, extra, call_returns_extra: false }));
                         if form.next_call() && extra != Extra::None && bal.is_zero() {
                             v.push(Case::Single(Single { kind: Kind::V2, form, c, bal: *bal, extra, call_returns_extra: true }));
@@ -790,7 +800,7 @@ pub fn run(ctx: Ctx) -> ! {
 
     if let Some(rc) = ctx.read_replay_case() {
         let want = rc["case_id"].as_str().unwrap_or("").to_string();
-        let mut all = single_cases();
+        let mut all = single_cases(true);
         all.extend(pair_cases(true));
         let Some((idx, case)) = all.iter().enumerate().find(|(_, c)| c.id() == want) else { mc_core::machinery_error("C37 run-time replay: case_id not found in the case space") };
         println!("C37 run-time replay: {}", case.describe());
@@ -803,12 +813,12 @@ pub fn run(ctx: Ctx) -> ! {
         ctx.finish(Level::Exploration, "replay of one case", 0, false, Map::new(), &[]);
     }
 
-    let singles = single_cases();
+    let singles = single_cases(!ctx.quick());
     let n_single = singles.len();
     let mut cases = singles;
     cases.extend(pair_cases(!ctx.quick()));
     let n_pair = cases.len() - n_single;
-    let wall_cap_s: f64 = std::env::var("C37RT_WALL_CAP_S").ok().and_then(|s| s.parse().ok()).unwrap_or(ctx.pick(50.0, 1100.0));
+    let wall_cap_s: f64 = std::env::var("C37RT_WALL_CAP_S").ok().and_then(|s| s.parse().ok()).unwrap_or(ctx.pick(55.0, 1100.0));
     let done = AtomicU64::new(0);
     par_range(&ctx, cases.len() as u64, 16, |i, l| {
         if ctx.elapsed_s() > wall_cap_s {
@@ -841,7 +851,7 @@ pub fn run(ctx: Ctx) -> ! {
     }
     let rule = format!(
         "a case = (manifest kind, assertion instruction, constraint, balance, unspecified-resource option): {n_single} single-resource cases (595 constraints + 'no constraints' x 6 fungible / 8 non-fungible balances x \
-V1 instructions in V1 and V2 manifests, WORKTOP_RESOURCES_ONLY/INCLUDE, NEXT_CALL_RETURNS_ONLY/INCLUDE, BUCKET_CONTENTS x 3 unspecified-resource options) + {n_pair} two-resource cases; cases the static validator \
+V1 instructions in V1 and V2 manifests, WORKTOP_RESOURCES_ONLY/INCLUDE, NEXT_CALL_RETURNS_ONLY/INCLUDE, BUCKET_CONTENTS x up to 3 unspecified-resource options; quick runs the general constraints with required ids or an allow-list without an unspecified resource) + {n_pair} two-resource cases; cases the static validator \
 rejects are out of scope. Non-trivial = executed transactions whose assertion passed (a balance accepted at run time)"
     );
     ctx.finish(
